@@ -176,6 +176,8 @@ pub struct TypeChecker {
     namespace_to_file: HashMap<NamespaceID, FileOrLib>,
     // TODO(ed): This can probably be removed via some trickery
     pub file_to_namespace: HashMap<FileOrLib, NamespaceID>,
+    // The pairs of types an operator check is inside of - a type can contain itself.
+    checking: BTreeSet<(TyID, TyID)>,
 }
 
 #[derive(Clone, Debug, Copy)]
@@ -212,6 +214,7 @@ impl TypeChecker {
                 .iter()
                 .map(|(a, b)| (b.clone(), a.clone()))
                 .collect(),
+            checking: BTreeSet::new(),
         };
         for var in variables {
             let ty = res.push_type(Type::Unknown);
@@ -1866,6 +1869,17 @@ impl TypeChecker {
     }
 
     fn add(&mut self, span: Span, ctx: TypeCtx, a: TyID, b: TyID) -> TypeResult<()> {
+        // A type that contains itself is only checked once.
+        let key = (self.find(a), self.find(b));
+        if !self.checking.insert(key) {
+            return Ok(());
+        }
+        let res = self.add_inner(span, ctx, a, b);
+        self.checking.remove(&key);
+        res
+    }
+
+    fn add_inner(&mut self, span: Span, ctx: TypeCtx, a: TyID, b: TyID) -> TypeResult<()> {
         match (self.find_type(a), self.find_type(b)) {
             (Type::Unknown, _) | (_, Type::Unknown) => Ok(()),
 
@@ -1891,6 +1905,16 @@ impl TypeChecker {
     }
 
     fn neg(&mut self, span: Span, a: TyID) -> TypeResult<()> {
+        let key = (self.find(a), self.find(a));
+        if !self.checking.insert(key) {
+            return Ok(());
+        }
+        let res = self.neg_inner(span, a);
+        self.checking.remove(&key);
+        res
+    }
+
+    fn neg_inner(&mut self, span: Span, a: TyID) -> TypeResult<()> {
         match self.find_type(a) {
             Type::Unknown | Type::Int | Type::Float => Ok(()),
 
@@ -1911,6 +1935,17 @@ impl TypeChecker {
     }
 
     fn sub(&mut self, span: Span, ctx: TypeCtx, a: TyID, b: TyID) -> TypeResult<()> {
+        // A type that contains itself is only checked once.
+        let key = (self.find(a), self.find(b));
+        if !self.checking.insert(key) {
+            return Ok(());
+        }
+        let res = self.sub_inner(span, ctx, a, b);
+        self.checking.remove(&key);
+        res
+    }
+
+    fn sub_inner(&mut self, span: Span, ctx: TypeCtx, a: TyID, b: TyID) -> TypeResult<()> {
         match (self.find_type(a), self.find_type(b)) {
             (Type::Unknown, _) | (_, Type::Unknown) => Ok(()),
 
@@ -1936,6 +1971,17 @@ impl TypeChecker {
     }
 
     fn mul(&mut self, span: Span, ctx: TypeCtx, a: TyID, b: TyID) -> TypeResult<()> {
+        // A type that contains itself is only checked once.
+        let key = (self.find(a), self.find(b));
+        if !self.checking.insert(key) {
+            return Ok(());
+        }
+        let res = self.mul_inner(span, ctx, a, b);
+        self.checking.remove(&key);
+        res
+    }
+
+    fn mul_inner(&mut self, span: Span, ctx: TypeCtx, a: TyID, b: TyID) -> TypeResult<()> {
         match (self.find_type(a), self.find_type(b)) {
             (Type::Unknown, _) | (_, Type::Unknown) => Ok(()),
 
@@ -1961,6 +2007,17 @@ impl TypeChecker {
     }
 
     fn div(&mut self, span: Span, ctx: TypeCtx, a: TyID, b: TyID) -> TypeResult<()> {
+        // A type that contains itself is only checked once.
+        let key = (self.find(a), self.find(b));
+        if !self.checking.insert(key) {
+            return Ok(());
+        }
+        let res = self.div_inner(span, ctx, a, b);
+        self.checking.remove(&key);
+        res
+    }
+
+    fn div_inner(&mut self, span: Span, ctx: TypeCtx, a: TyID, b: TyID) -> TypeResult<()> {
         match (self.find_type(a), self.find_type(b)) {
             (Type::Unknown, _) => Ok(()),
             (_, Type::Unknown) => Ok(()),
@@ -1994,6 +2051,17 @@ impl TypeChecker {
     }
 
     fn div_res(&mut self, span: Span, ctx: TypeCtx, a: TyID, b: TyID) -> TypeResult<()> {
+        // A type that contains itself is only checked once.
+        let key = (self.find(a), self.find(b));
+        if !self.checking.insert(key) {
+            return Ok(());
+        }
+        let res = self.div_res_inner(span, ctx, a, b);
+        self.checking.remove(&key);
+        res
+    }
+
+    fn div_res_inner(&mut self, span: Span, ctx: TypeCtx, a: TyID, b: TyID) -> TypeResult<()> {
         match (self.find_type(a), self.find_type(b)) {
             (Type::Float | Type::Int, Type::Float) => Ok(()),
 
@@ -2037,6 +2105,17 @@ impl TypeChecker {
     }
 
     fn cmp(&mut self, span: Span, ctx: TypeCtx, a: TyID, b: TyID) -> TypeResult<()> {
+        // A type that contains itself is only checked once.
+        let key = (self.find(a), self.find(b));
+        if !self.checking.insert(key) {
+            return Ok(());
+        }
+        let res = self.cmp_inner(span, ctx, a, b);
+        self.checking.remove(&key);
+        res
+    }
+
+    fn cmp_inner(&mut self, span: Span, ctx: TypeCtx, a: TyID, b: TyID) -> TypeResult<()> {
         match (self.find_type(a), self.find_type(b)) {
             (Type::Unknown, _) | (_, Type::Unknown) => Ok(()),
 
